@@ -74,6 +74,13 @@ CLAIMED = {
             "MIR of each, are identical in {} / default+decode (quick) and in all four buildable feature sets "
             "(thorough); gates are entered only under the config flags verification forces off or that select the "
             "parallel mode. Dependency feature unification is trusted.", "4/C20"),
+    "C14": ("SIBLING: symbolic MIR expression shapes of the two Fill methods of FrameBuf/Context/ParContext compared "
+            "with each other + FORWARD on the wrapper impls + TABLE extraction of the width/channel dispatch chains",
+            "The integer and packed-byte paths are siblings: same de-interleave call and filled_size formula, same "
+            "context fields updated with len/channels(/width), same empty-block handling, exactly one enqueue per "
+            "fill in par mode with the context's own byte width, wrapper impls forward both methods to every "
+            "component, and the width/channel dispatch tables match the const arguments/divisors of the dispatched "
+            "bodies (shift (4-BPS)*8, little-endian constructor). Converted values are not decided.", "4/C14"),
     "C19": ("ATTR: dataflow over the serde-derive generated Serialize/Deserialize/Visitor MIR bodies (absent-field "
             "arms, key tables, tag strings) + DEFAULTS: Default::default aggregates vs the constants the docs cite",
             "Narrow: for every field of the 8 config types an absent key takes the container default (or an equal "
